@@ -156,6 +156,28 @@ def args_shard(spec, emit):
                 except Exception as e:
                     viols.append(dict(mechanism="second-fit-raises", estimator=est_name, exc=type(e).__name__,
                                       detail=repr(e)[:250]))
+                # (d) an identically configured object that was fitted on OTHER data first (other number of samples and,
+                # where the configuration allows it, of features): its fit on (X, y) is that of the fresh object above
+                if not (est_name == "GLE" and rep % 2 == 1):
+                    try:
+                        p_here = X.shape[1]
+                        p_oth = p_here if est_name == "WeightedLasso" else max(4, p_here + 2 * int(rng.choice([-2, -1, 1, 2])))
+                        ps_o = dict(ps, data=["other-" + str(ps["data"][0])], n=int(ps["n"]) + int(rng.integers(-5, 9)), p=p_oth)
+                        Xo, yo, _ = PB.build_data(ps_o)
+                        est_b = PB.build_estimator(ps, p_here)
+                        est_b.fit(Xo, yo)
+                        est_b.fit(X, y)
+                        d3, v3 = PB.model_digest(est_b)
+                        same = d1 == d3 or (est_name == "GroupLasso" and ps["storage"] == "csc" and all(
+                            np.allclose(v1[k], v3[k], rtol=1e-3, atol=1e-4) for k in v1))
+                        if not same:
+                            viols.append(dict(mechanism="fit-after-other-data-differs-from-fresh-fit", estimator=est_name,
+                                              storage=ps["storage"], other_shape=list(Xo.shape), shape=list(X.shape),
+                                              detail="fresh %s vs after a fit on data of shape %s: %s" % (
+                                                  str(v1)[:120], Xo.shape, str(v3)[:120])))
+                    except Exception as e:
+                        viols.append(dict(mechanism="fit-after-other-data-raises", estimator=est_name, exc=type(e).__name__,
+                                          detail=repr(e)[:250]))
                 # path(): alphas / coef_init untouched
                 if hasattr(est, "path") and est_name in ("Lasso", "ElasticNet", "WeightedLasso", "MCPRegression", "MultiTaskLasso"):
                     alphas = np.array([0.5, 0.2, 0.3]) * float(est.alpha) * 3
